@@ -44,8 +44,8 @@ CLAIMED.update({
 })
 
 CLAIMED.update({
-    'C18': dict(cat='other', tech='cross-mode must-definition (what any mode's run code writes must be re-initialised in the prefix of the mode that reads it next); cli()/sti() pairing (shared with C16); must-definition dataflow over the per-operand initialisation prefix vs. run-written/read global locations (per mode), who-may-read/write rules',
-                text='State written by one mode's run code and read by another mode's (decompress one operand, copy the next) is covered; the signal window is closed on every path through the operand loop. Decides the state carry-over clause: every global location that run-time code of a mode writes and '
+    'C18': dict(cat='other', tech='cross-mode must-definition (what the run code of any mode writes must be re-initialised in the prefix of the mode that reads it next); cli()/sti() pairing (shared with C16); must-definition dataflow over the per-operand initialisation prefix vs. run-written/read global locations (per mode), who-may-read/write rules',
+                text='State written by the run code of one mode and read by that of another (decompress one operand, copy the next) is covered; the signal window is closed on every path through the operand loop. Decides the state carry-over clause: every global location that run-time code of a mode writes and '
                      'reads upward-exposed is stored on every path of the next run\'s initialisation prefix (main-level '
                      'input_init/output_init, work(), schedule()/copy(), primary_thread up to init_io incl. the mode\'s '
                      'init callback), or is restored by construction / in a structurally verified exception table; no '
@@ -56,7 +56,7 @@ CLAIMED.update({
 
 CLAIMED.update({
     'C19': dict(cat='other', tech='cross-mode must-definition for the copy pseudo-process; guard-cut and interval extraction over the CFG of work(), provenance of call arguments, conservation law and must-definition analysis for copy mode',
-                text='Flags left by a preceding decompression run (request_close, ...) must be re-initialised before the copy's threads start. Decides: the decompressor is entered exactly for a full 4-byte header in BZh1..BZh9 (interval derived '
+                text='Flags left by a preceding decompression run (request_close, ...) must be re-initialised before the threads of the copy start. Decides: the decompressor is entered exactly for a full 4-byte header in BZh1..BZh9 (interval derived '
                      'from the comparisons guarding the call); copy() is reachable only with -f and standard output and '
                      'everything else fails; the sniffed 0-4 bytes are written first with their true length; copy-mode '
                      'slot constants agree; the copy pipeline conserves buffers and output slots on every path; '
